@@ -209,6 +209,11 @@ class SimEnv:
         class SimWorker(opp.BaseFunctorWorker):
             def __init__(self, context):
                 super().__init__(context, math.inf if env.cfg.quota is None else env.cfg.quota)
+                if not getattr(env, "_labelled", False):
+                    # the first worker object comes with an identifier of the user's choosing (a label); whatever the pool does
+                    # with it, the identifiers it works with are unique
+                    env._labelled = True
+                    self.wid = 1
                 self._sim_thread = None
                 self._sim_exit = None
                 self._chunk_no = 0
